@@ -22,7 +22,7 @@ from ...__settings import settings
 from ...sdk.circuit import Circuit
 from ...sdk.state import State
 from ...sdk.utils import add_heralds_to_state, process_random_seed
-from ...sdk.utils.post_selection import PostSelectionType
+from ...sdk.utils.post_selection import PostSelection, PostSelectionType
 from ..backend import Backend
 from ..results import SamplingResult
 from ..utils import (
@@ -261,11 +261,19 @@ class QuickSampler:
         Stores all current parameters used with the sampler in a list and
         returns this.
         """
+        # Rules of a PostSelection object can be added after assignment, so
+        # the rules themselves need to be stored and not only the object
+        post_select_rules = (
+            [r.as_tuple() for r in self.post_select.rules]
+            if isinstance(self.post_select, PostSelection)
+            else None
+        )
         # Store circuit unitary and input state
         return [
             self.__circuit.U_full,
             self.input_state,
             self.post_select,
+            post_select_rules,
             self.photon_counting,
             self.circuit.heralds,
         ]
